@@ -46,6 +46,16 @@ type c10Alphabet struct {
 	closeBy string // "value": Close(fresh object of each process value with PTS); "index": Close(equal of k-th internal element)
 	nClose  int
 	again   bool
+	// copyAgain adds the op "Process(a FRESH object with the values of the previous Process object)": the
+	// re-transmission of a signal arrives as a new object; by value it is the same descriptor
+	copyAgain bool
+}
+
+func (a *c10Alphabet) againIdx() int {
+	if a.copyAgain {
+		return a.nops() - 2
+	}
+	return a.nops() - 1
 }
 
 func (a *c10Alphabet) nops() int {
@@ -56,6 +66,9 @@ func (a *c10Alphabet) nops() int {
 		n += a.nClose
 	}
 	if a.again {
+		n++
+	}
+	if a.copyAgain {
 		n++
 	}
 	return n
@@ -102,8 +115,8 @@ func c10VSSValues() []c19Val {
 	out := c10Values([]int{0x40, 0x41, 0x10}, []uint32{1, 2}, []int{100, 200}, false)
 	for _, ev := range []uint32{1, 2} {
 		for _, p := range []uint64{100, 200} {
-			for _, k := range []uint8{1, 2, 3, 4, 5} {
-				if k > 2 && (ev != 1 || p != 100) && k != 3 {
+			for _, k := range []uint8{1, 2, 3, 4, 5, 6, 7, 8, 9} {
+				if k > 2 && (ev != 1 || p != 100) && k != 3 && k != 6 {
 					continue // the edge forms of the marker: 'BLACKOUT' alone for every event id / PTS, the others once
 				}
 				out = append(out, c19Val{Type: 0x40, Event: ev, HasPTS: true, PTS: p, Num: 1, Exp: 1, VSS: k})
@@ -125,13 +138,13 @@ var c10Alphabets = map[string]*c10Alphabet{
 		process: c10Values([]int{0x10, 0x11, 0x13, 0x14, 0x20, 0x21, 0x30, 0x31, 0x34, 0x35, 0x40, 0x41, 0x50, 0x51}, []uint32{1, 2}, []int{100, 200, -1}, true)},
 	"wide-thorough": {name: "wide-thorough", closeBy: "value", again: true,
 		process: c10Values(c10NamedTypes, []uint32{1, 2}, []int{100, 200, -1}, true)},
-	"focused": {name: "focused", closeBy: "index", nClose: 4, again: true,
+	"focused": {name: "focused", closeBy: "index", nClose: 4, again: true, copyAgain: true,
 		process: c10Values([]int{0x10, 0x13, 0x14, 0x30, 0x31, 0x40, 0x41, 0x50, 0x51}, []uint32{1, 2}, []int{100, 200}, false)},
 	// many pairwise different descriptors that share one of two signal times
 	"burst": {name: "burst", closeBy: "index", nClose: 2, again: true,
 		process: c10Values([]int{0x20, 0x10, 0x22, 0x30, 0x34, 0x40, 0x50, 0x21, 0x11, 0x23, 0x31, 0x35, 0x41, 0x51}, []uint32{1, 2, 3, 4, 5, 6, 7, 8, 9, 10}, []int{500, 600}, false)},
 	// unscheduled-event starts that carry a stream-switch signal id (the tracker compares those ids)
-	"vss": {name: "vss", closeBy: "index", nClose: 2, again: true, process: c10VSSValues()},
+	"vss": {name: "vss", closeBy: "index", nClose: 2, again: true, copyAgain: true, process: c10VSSValues()},
 	"distinct-pts": {name: "distinct-pts", closeBy: "index", nClose: 3, again: false, autoPTS: true,
 		process: c10Values([]int{0x10, 0x11, 0x13, 0x14, 0x22, 0x23, 0x40, 0x41, 0x50, 0x51}, []uint32{1, 2}, []int{0}, false)},
 }
@@ -196,7 +209,9 @@ func (a *c10Alphabet) describeOp(op int) string {
 			p += fmt.Sprintf(" stream-switch ADI %q", c19VSSText(v.VSS))
 		}
 		return fmt.Sprintf("Process(new{%#x ev%d %s %d/%d})", v.Type, v.Event, p, v.Num, v.Exp)
-	case a.again && op == a.nops()-1:
+	case a.copyAgain && op == a.nops()-1:
+		return "Process(fresh object with the values of the previous one)"
+	case a.again && op == a.againIdx():
 		return "Process(same object again)"
 	case a.closeBy == "value":
 		k := op - np
@@ -292,7 +307,13 @@ func c10Apply(s *c10State, op int, res *engine.Result, depth int) bool {
 		if s.first == nil {
 			s.first = incoming
 		}
-	case a.again && op == a.nops()-1:
+	case a.copyAgain && op == a.nops()-1:
+		if s.last == nil || !s.last.v.HasPTS {
+			return false
+		}
+		kind = "ProcessEqualCopy"
+		incoming = s.mk(s.last.v)
+	case a.again && op == a.againIdx():
 		if s.last == nil {
 			return false
 		}
@@ -479,7 +500,7 @@ func c10Apply(s *c10State, op int, res *engine.Result, depth int) bool {
 			fail("rejected-but-list-changed", "open list changed to %s", s.names(after.Open))
 		}
 	}
-	if kind == "ProcessAgain" {
+	if kind == "ProcessAgain" || kind == "ProcessEqualCopy" {
 		if err == nil {
 			fail("accepted", "processing the same descriptor twice in a row was accepted the second time")
 		} else if err != gots.ErrSCTE35DuplicateDescriptor && (s.lastErr == nil || s.lastErr == gots.ErrSCTE35MissingOut || s.lastErr == gots.ErrSCTE35InvalidDescriptor || s.lastErr == gots.ErrSCTE35DuplicateDescriptor) {
@@ -527,6 +548,8 @@ func c10Apply(s *c10State, op int, res *engine.Result, depth int) bool {
 	res.Outcome(cls, len(closed), fmt.Sprint(err), len(after.Open), after.InBlackout)
 	if kind == "Close" {
 		s.last = nil
+	} else if kind == "ProcessEqualCopy" {
+		// the copy was (to be) rejected: the previous object stays the reference for a further repetition
 	} else {
 		if kind == "Process" {
 			s.lastErr = err
@@ -834,7 +857,7 @@ func init() {
 		Scenarios: []engine.ScenarioRunner{
 			c10Scenario("wide", "BFS to depth 3 over {Process(fresh descriptor) for 14 segmentation types (thorough: all 38 named types + one unnamed) x event id {1,2} x PTS {100,200,none} (x segment (1,1),(1,2) for PO ends, and PO starts with sub-segment fields 1/2), Close(fresh equal-valued descriptor) for every PTS-bearing value, Process(the same object again)}."+common,
 				"wide-quick", "wide-thorough", 3, 3),
-			c10Scenario("focused", "BFS to depth 4 (thorough 5, state-capped) over {Process for types {0x10,0x13,0x14,0x30,0x31,0x40,0x41,0x50,0x51} x event {1,2} x PTS {100,200}, Close(equal of the k-th internal element, k<4), Process(same object again)}."+common,
+			c10Scenario("focused", "BFS to depth 4 (thorough 5, state-capped) over {Process for types {0x10,0x13,0x14,0x30,0x31,0x40,0x41,0x50,0x51} x event {1,2} x PTS {100,200}, Close(equal of the k-th internal element, k<4), Process(same object again), Process(a fresh object with the values of the previous one: a re-transmission, rejected like the same object)}."+common,
 				"focused", "focused", 4, 5),
 			c10Scenario("distinct-pts", "BFS to depth 4 (thorough 5) over {Process for types {0x10,0x11,0x13,0x14,0x22,0x23,0x40,0x41,0x50,0x51} x event {1,2} with PTS = 100+position (always distinct), Close(equal of the k-th internal element, k<3)}: reaches the deep breakaway/resumption histories."+common,
 				"distinct-pts", "distinct-pts", 4, 5),
@@ -888,7 +911,7 @@ func init() {
 				},
 				Check: c10CheckLong, Batch: 4,
 			},
-			c10Scenario("stream-switch-ids", "BFS to depth 4 (thorough 5) over {Process for types {0x40,0x41,0x10} x event {1,2} x PTS {100,200}, and unscheduled-event starts 0x40 whose MID carries stream-switch signal id sig1 / sig2 (the tracker compares these ids between starts of equal event id) or an edge form of the marker ('BLACKOUT' alone, 'BLACKOUT:' with an empty id, the marker not at the start), Close(equal of the k-th internal element, k<2), Process(same object again)}."+common,
+			c10Scenario("stream-switch-ids", "BFS to depth 4 (thorough 5) over {Process for types {0x40,0x41,0x10} x event {1,2} x PTS {100,200}, and unscheduled-event starts 0x40 whose MID carries stream-switch signal id sig1 / sig2 (the tracker compares these ids between starts of equal event id) or an edge form of the marker ('BLACKOUT' alone, 'BLACKOUT:' with an empty id, the marker not at the start) or of the list (one entry only, three entries, no entry, the two entries in the other order), Close(equal of the k-th internal element, k<2), Process(same object again)}."+common,
 				"vss", "vss", 4, 5),
 			c10Scenario("core-deep", "BFS to depth 5 (thorough 6) over {Process for types {0x10,0x13,0x14,0x41,0x22,0x23} x event {1,2} with PTS = 100+position, Close(equal of the k-th internal element, k<2)}: the deepest breakaway/resumption/close interplay."+common,
 				"core", "core", 5, 6),
